@@ -46,52 +46,22 @@ def r1_default_to(ctx, prog, cfg):
         return r
     # the value handed to Locale::merge as `default_to`, evaluated abstractly (rules/absint.py) for a locale with and
     # without an `inherits` entry, with and without `suppress_key_warnings`; a helper the choice was moved to is inlined
-    from rules import sem, absint
-    from rules.absint import AEval, C, CF, L, T, B
+    from rules import absint, checklocales
     fn = ctx.ast.fn(PM, "check_locales_inner")
     if fn is None:
         r.missing("check_locales_inner (syntax)")
         return r
-    nb = sem.nbody(ctx.ast, fn)
-    mcalls = [n for (_rc, _a, n) in sem.calls(nb, r"^merge$") if len(n["args"]) >= 6]
-    if len(mcalls) != 1:
-        r.viol("R1:check_locales_inner#merge-call", "expected one call locale.merge(.., default_to, ..), found %d" % len(mcalls), file=fn.file, line=fn.line)
-        return r
-    expr = mcalls[0]["args"][2]
-    if expr["k"] == "Path":
-        lets = [l for l in find_all(nb, "Let") if l["pat"]["k"] == "PIdent" and l["pat"]["name"] == expr["path"] and "init" in l]
-        if len(lets) == 1:
-            expr = lets[0]["init"]
-
-    def S(x):
-        return ("str", x)
-    params = fn.params()
-    rows = []
-    for has_entry in (True, False):
-        for suppress_kw in (True, False):
-            env = {"top_locale": S("fr-CA"), "default_locale": CF("Locale", top_locale_name=S("en"), name=S("en"))}
-            ext = L(T(S("fr-CA"), S("fr")), T(S("de"), S("it"))) if has_entry else L(T(S("de"), S("it")))
-            for pn in params:
-                if "extension" in pn:
-                    env[pn] = ext
-            env.setdefault("extensions", ext)
-            ev = AEval(inputs=[(r'^cfg!feature="suppress_key_warnings"$', B(suppress_kw))], funcs=absint.file_funcs(ctx.ast, PM))
-            try:
-                v = ev.ex(expr, env)
-            except absint.Unknown as u:
-                v = "UNKNOWN: %s" % u
-            except absint.Ret as rt:
-                v = rt.value
-            want = C("Explicit", S("fr")) if has_entry else (C("Explicit", S("en")) if suppress_kw else C("Implicit", S("en")))
-            rows.append((has_entry, suppress_kw, v, want))
-    bad = [(h, sk, v if isinstance(v, str) else absint.fmt(v), absint.fmt(w)) for h, sk, v, w in rows if v != w]
+    # abstract evaluation of the whole function on locales [en (default), fr-CA (inherits fr), fr, de] in every order
+    rows = checklocales.table(ctx)
+    bad = [(order, sup, res, log, want) for (order, sup, res, log, want) in rows if res != absint.C("Ok", absint.A("DEFAULT-KEYS")) or log != want]
     if not bad:
-        r.inst("check_locales_inner#lookup", "extensions.get(&top_locale), top_locale = locale.name", cfg=cfg)
+        r.inst("check_locales_inner#lookup", "extensions.get(&top_locale), top_locale = locale.name (%d orders x suppress on/off)" % (len(rows) // 2), cfg=cfg)
         r.inst("check_locales_inner#DefaultTo::Explicit@Some", "Explicit(<the inherits entry of this locale>)", cfg=cfg)
-        r.inst("check_locales_inner#DefaultTo@None", "no entry: Explicit(default locale) under suppress_key_warnings, else Implicit(default locale)", cfg=cfg)
+        r.inst("check_locales_inner#DefaultTo@None", "no entry: Explicit(default locale) under suppress_key_warnings, else Implicit(default locale) - whatever locales came before", cfg=cfg)
     else:
-        for h, sk, got, want in bad:
-            r.viol("R1:check_locales_inner#DefaultTo@%s%s" % ("Some" if h else "None", ",suppress" if sk else ""), "for a locale %s an inherits entry (suppress_key_warnings=%s) Locale::merge receives default_to = %s, expected %s" % ("with" if h else "without", sk, got, want), file=fn.file, line=fn.line)
+        order, sup, res, log, want = bad[0]
+        r.viol("R1:check_locales_inner#DefaultTo", "with locales [en, %s], inherits {fr-CA: fr}, suppress_key_warnings=%s: %s; expected %s (%d of %d cases differ)" % (
+            ", ".join(order), sup, checklocales.describe(log) if not isinstance(res, str) else res, checklocales.describe(want), len(bad), len(rows)), file=fn.file, line=fn.line)
     swb = 0
     merges = M.call_blocks(b, r"locale::Locale::merge$")
     for m in merges:
